@@ -140,7 +140,7 @@ def handle (cmd : String) (j : J) : Except String J :=
       pure (exJ tableToJ (t.innerJoin u ks ko))
     | "cross_join" => do
       let u ← tableOfJ (← j.get "u")
-      pure (tableToJ (t.crossJoin u))
+      pure (exJ tableToJ (t.crossJoin u))
     | "get_columns" => pure (exJ tableToJ (t.getColumns (← strsOfJ (← j.get "columns"))))
     | "filtered" => do
       let p ← predOfJ (← j.get "pred")
